@@ -143,6 +143,9 @@ func msgOf(v interface{}) sx.S {
 		default:
 			val = fmt.Sprintf("?%T", t)
 		}
+		if k == "k" {
+			k = "99" // the extra field of the (reuse) requests
+		}
 		out = append(out, sx.L(strings.TrimPrefix(k, "f"), val))
 	}
 	return out
@@ -408,6 +411,12 @@ func subRequestVars(subs []sx.S) (string, map[string]interface{}) {
 				}
 				fmt.Fprintf(&body, " @include(if: $t%d)", i)
 			}
+		}
+		if sx.Int(sl[1])%3 == 0 && !c19Share {
+			// one more field under a variable that differs between the subscribers of this shape
+			fmt.Fprintf(&head, ", $k%d: Boolean", i)
+			vars[fmt.Sprintf("k%d", i)] = sx.Int(sl[1])%6 == 0
+			fmt.Fprintf(&body, " k @include(if: $k%d)", i)
 		}
 		body.WriteString(" }")
 	}
